@@ -1372,7 +1372,7 @@ def m_chunks(eng, call, args):
     call["pre"] = ("nonzero", args[1])
     meth = call["norm_names"][0].split("::")[-1]
     # every chunk yielded by chunks_exact has exactly n elements
-    return mk("iter", mk("chunks", v, args[1], meth), False, call["site"])
+    return mk("iter", mk("chunks", v, args[1], meth), True, call["site"])   # yields references to sub-slices
 
 
 @model("std::ops::Fn::call", "std::ops::FnMut::call_mut", "std::ops::FnOnce::call_once")
